@@ -43,6 +43,8 @@ def run(repo, chk):
     tr = repo.func("transform.transform")
     from .shared import dictpile_obligations
     dictpile_obligations(repo, chk, "R16.1")
+    from .shared import annotation_cache_obligations
+    annotation_cache_obligations(repo, chk, "R16.2")
 
     # ---------------- R16.1 / R16.4
     leaks, sanitised, eager = {}, 0, []
